@@ -1056,11 +1056,23 @@ def parse_left_assoc_binary_expr(toks):
 @parse_action(exponent_expr)
 def parse_right_assoc_binary_expr(toks):
     loc_start, toks, loc_end = toks
+    toks = list(toks)
+
+    # an operand following ^ may carry its own signs (2 ^ -1); they
+    # apply to the whole power to their right (2 ^ -3 ^ 2)
+    signs = []
+    while len(toks) > 1 and toks[0] in ('-', '+'):
+        signs.append(toks.pop(0))
+
     assert len(toks) % 2 == 1
     node = toks[-1]
     for i in range(-2, -len(toks) - 1, -2):
         assert toks[i] == '^'
         node = BinaryOp(toks[i-1], node, Operator.EXP)
+        node.loc_start = loc_start
+        node.loc_end = loc_end
+    for sign in reversed(signs):
+        node = UnaryOp(node, Operator.unary_op_from_token(sign))
         node.loc_start = loc_start
         node.loc_end = loc_end
     node.loc_start = loc_start
